@@ -11,6 +11,7 @@ import (
 	"testing"
 	"time"
 
+	"github.com/hedzr/is"
 	"github.com/hedzr/logg/slog"
 	"github.com/hedzr/logg/slog/verifharness/vlib"
 	"pgregory.net/rapid"
@@ -59,7 +60,6 @@ type world struct {
 	nodes  []*node
 	log    *vlib.EventLog
 	hist   []string
-	debug  bool
 	serial int
 	labels map[string]bool
 	// the package's default level as the statement defines it: what it was when the case began,
@@ -128,11 +128,9 @@ func (w *world) find(e *slog.Entry) *node {
 	return nil
 }
 
-func (w *world) noteLevel(l slog.Level) {
-	if l == slog.DebugLevel {
-		w.debug = true // documented side effect of SetLevel(Debug): process-wide debug mode
-	}
-}
+// noteLevel: the process-wide debug mode that a level change may switch is read (is.DebugMode) when admission
+// is judged, not predicted here - how it gets switched is C01's subject.
+func (w *world) noteLevel(slog.Level) {}
 
 // ---------- invariants checked after every step ----------
 
@@ -265,7 +263,7 @@ var levelModel = vlib.NewLevelModel()
 func (w *world) probe(n *node) {
 	// gating
 	for _, sev := range []slog.Level{slog.ErrorLevel, slog.WarnLevel, slog.InfoLevel, slog.DebugLevel, slog.TraceLevel, slog.OKLevel} {
-		if got, want := n.lg.Enabled(sev), levelModel.Admit(n.level, sev, w.debug); got != want {
+		if got, want := n.lg.Enabled(sev), levelModel.Admit(n.level, sev, is.DebugMode()); got != want {
 			w.discrep("C10/isolation", "logger #%d %q (model level %v): Enabled(%v) = %v, want %v", n.id, n.name, n.level, sev, got, want)
 		}
 	}
@@ -917,7 +915,6 @@ func TestHierarchy(t *testing.T) {
 		slog.SetDefault(def)
 		d := w.adopt(def, nil, def.Name(), nil)
 		d.level, d.format = w.pkgLevel, fColor // what the statement says about a logger made by the package-level New
-		w.debug = false
 		steps := rapid.IntRange(3, 40).Draw(t, "steps")
 		for i := 0; i < steps; i++ {
 			w.step()
